@@ -405,7 +405,7 @@ class Ctx:
                     pass
         return kept
 
-    def stage_property_mode(self, exe, args, label="prop", timeout=3000, env=None):
+    def stage_property_mode(self, exe, args, label="prop", timeout=1500, env=None):
         """Run the harness's property mode: it evaluates the property's own statement on the
         real code and writes FAIL lines `FAIL <key> <detail>` to prop.txt."""
         outdir = os.path.join(self.work, label)
